@@ -34,7 +34,8 @@ def truncation_valid(g, dd, full, n):
     for l in lines[1:]:
         if l.startswith("build "):
             outs.append(l.split()[1].rstrip(":"))
-    bound = [key(e) for e in g['edges'] if e.get('dd') == dd]
+    # names as the file spells them (dyndep files may spell paths non-canonically, see models.dyndep_text)
+    bound = [models._spell(key(e), e.get('dd_spell', 0)) for e in g['edges'] if e.get('dd') == dd]
     return sorted(outs) == sorted(bound)
 
 
